@@ -46,6 +46,11 @@ def symbolic_spec(st: State, name: str, wf=True, typing=True):
     st.ghost['wf'][vid] = view
     if wf:
         st.facts += view.axioms(typing=typing)
+        if typing:
+            # a None node exists only in treespecs made with none_is_leaf=False (otherwise None is a leaf)
+            i = z3.Int(f'i!nil_{name}')
+            st.facts.append(z3.ForAll([i], z3.Implies(z3.And(0 <= i, i < vec.len, view.K(i) == KIND['None']),
+                                                      z3.Not(st.heap[sid].nil)), patterns=[view.K(i)]))
     return Ptr(sid), view
 
 
